@@ -97,3 +97,139 @@ def local_memo_rule(repo: Repo, rep, rule: str, prefixes: Tuple[str, ...], why: 
     if not n_bad:
         rep.ok(rule, f"functions under {', '.join(prefixes)}", f"{n_fn} functions, {n_tab} call-local memo table(s): every key covers the loop-varying inputs of the stored value",
                "src/pyopenapi_gen:1")
+
+
+# ------------------------------------------------------------------------------------------------ memo tables that outlive the call
+_EXAMPLE2 = '''
+def render(self, op, context):
+    code = self._cache.get(op.operation_id)
+    if code is None:
+        code = self._cache[op.operation_id] = build(op, context)
+    return code
+'''
+
+
+def _deps(fn: ast.AST, roots: Set[str], params: Set[str]) -> Set[str]:
+    """parameters the given local names (transitively) depend on: right-hand sides of their assignments, arguments of method calls and
+    subscript stores on them, iterables of the loops that bind them"""
+    defs = {}
+    for st in ast.walk(fn):
+        if isinstance(st, ast.Assign):
+            for t in st.targets:
+                for x in ast.walk(t):
+                    if isinstance(x, ast.Name) and isinstance(x.ctx, ast.Store):
+                        defs.setdefault(x.id, []).append(st.value)
+                    if isinstance(x, ast.Subscript) and isinstance(x.value, ast.Name):
+                        defs.setdefault(x.value.id, []).append(st.value)
+                        defs.setdefault(x.value.id, []).append(x.slice)
+        elif isinstance(st, (ast.AnnAssign, ast.AugAssign)) and isinstance(st.target, ast.Name) and st.value is not None:
+            defs.setdefault(st.target.id, []).append(st.value)
+        elif isinstance(st, (ast.For, ast.AsyncFor, ast.comprehension)):
+            for x in ast.walk(st.target):
+                if isinstance(x, ast.Name):
+                    defs.setdefault(x.id, []).append(st.iter)
+        elif isinstance(st, ast.Call) and isinstance(st.func, ast.Attribute) and isinstance(st.func.value, ast.Name) and st.func.attr in ("append", "extend", "add", "update", "setdefault", "insert"):
+            for a in st.args:
+                defs.setdefault(st.func.value.id, []).append(a)
+        elif isinstance(st, ast.withitem) and st.optional_vars is not None:
+            for x in ast.walk(st.optional_vars):
+                if isinstance(x, ast.Name):
+                    defs.setdefault(x.id, []).append(st.context_expr)
+    seen: Set[str] = set()
+    out: Set[str] = set()
+    work = list(roots)
+    while work:
+        n = work.pop()
+        if n in seen:
+            continue
+        seen.add(n)
+        if n in params:
+            out.add(n)
+        for v in defs.get(n, []):
+            for x in ast.walk(v):
+                if isinstance(x, ast.Name) and x.id not in seen:
+                    work.append(x.id)
+    return out
+
+
+def persistent_memo_hazards(fn: ast.AST, private_attr) -> Tuple[List[Tuple[str, str, List[str], ast.AST]], int]:
+    """Memo tables kept on an object (`self._cache`, `context.parsed_x`) and used by this function only (`private_attr(name)`):
+    ([(table, key text, parameters the stored value depends on that the key does not mention, store node)], number of such tables)."""
+    a = fn.args
+    params = {x.arg for x in a.args + a.kwonlyargs}
+    out = []
+    n_tables = 0
+    for st in own_nodes(fn):
+        if not isinstance(st, ast.Assign):
+            continue
+        subs = [t for t in st.targets if isinstance(t, ast.Subscript) and isinstance(t.value, ast.Attribute) and isinstance(t.value.value, ast.Name)]
+        if not subs:
+            continue
+        t = subs[0]
+        owner, attr = t.value.value.id, t.value.attr
+        if not private_attr(attr):
+            continue
+        reads = [n for n in own_nodes(fn) if (
+            (isinstance(n, ast.Compare) and len(n.ops) == 1 and isinstance(n.ops[0], (ast.In, ast.NotIn)) and isinstance(n.comparators[0], ast.Attribute) and n.comparators[0].attr == attr)
+            or (isinstance(n, ast.Subscript) and isinstance(n.ctx, ast.Load) and isinstance(n.value, ast.Attribute) and n.value.attr == attr)
+            or (isinstance(n, ast.Call) and isinstance(n.func, ast.Attribute) and n.func.attr == "get" and isinstance(n.func.value, ast.Attribute) and n.func.value.attr == attr))]
+        if not reads:
+            continue
+        n_tables += 1
+        key_names = _deps(fn, {x.id for x in ast.walk(t.slice) if isinstance(x, ast.Name)}, params)
+        val_names = _deps(fn, {x.id for x in ast.walk(st.value) if isinstance(x, ast.Name)}, params)
+        missing = sorted(val_names - key_names - {owner, "self", "cls"})
+        if missing:
+            out.append((f"{owner}.{attr}", norm(t.slice), missing, st))
+    return out, n_tables
+
+
+def persistent_memo_rule(repo: Repo, rep, rule: str, prefixes: Tuple[str, ...], why: str) -> None:
+    """A table that lives on the visitor / parsing context serves its entries to *later calls* of the function that fills it, so its key
+    must mention every parameter of that function the stored value is computed from (the object that owns the table excepted).
+    Only tables used by a single function are memo tables in this sense; attributes other code reads are registries with their own rules."""
+    ex = ast.parse(_EXAMPLE2).body[0]
+    hz, _ = persistent_memo_hazards(ex, lambda a: True)
+    rep.require(len(hz) == 1 and hz[0][2] == ["context"], f"{rule}: the built-in positive example is no longer recognised - the rule is broken")
+    # attribute name -> set of functions (fq) in which it occurs, package-wide (initialisation `x.attr = {}` / class-level fields excepted)
+    users = {}
+    for m in repo.modules.values():
+        for q, f in m.functions.items():
+            for n in own_nodes(f.node):
+                if isinstance(n, ast.Attribute):
+                    p = getattr(n, "_parent", None)
+                    users.setdefault(n.attr, set()).add(f"{m.name}:{q}")
+    inits = set()
+    for m in repo.modules.values():
+        for q, f in m.functions.items():
+            for n in own_nodes(f.node):
+                if isinstance(n, (ast.Assign, ast.AnnAssign)):
+                    tg = n.targets[0] if isinstance(n, ast.Assign) else n.target
+                    v = n.value
+                    if isinstance(tg, ast.Attribute) and v is not None and ((isinstance(v, ast.Dict) and not v.keys) or (isinstance(v, ast.Call) and dotted(v.func) in ("dict", "OrderedDict", "field"))):
+                        inits.add((tg.attr, f"{m.name}:{q}"))
+    n_fn = n_tab = n_bad = 0
+    for m in repo.modules.values():
+        if not any(("." + m.name + ".").find("." + p + ".") >= 0 for p in prefixes):
+            continue
+        for q, f in m.functions.items():
+            n_fn += 1
+            me = f"{m.name}:{q}"
+
+            def private(attr: str, me=me) -> bool:
+                others = {u for u in users.get(attr, set()) if u != me and (attr, u) not in inits}
+                return not others
+
+            hz, nt = persistent_memo_hazards(f.node, private)
+            n_tab += nt
+            for t, key, missing, st in hz:
+                n_bad += 1
+                rep.violation(rule, f"{m.relpath}:{q} memo `{t}`", f"{m.name}:{q}|memo-key-incomplete|{t}|{','.join(missing)}",
+                              f"`{norm(st)[:90]}`: the stored value is computed from the parameter(s) {missing} as well, but it is kept in `{t}` and served to later calls "
+                              f"under `{key}` alone. {why}", f"{m.relpath}:{st.lineno}")
+    rep.count(f"{rule}:functions", n_fn)
+    rep.count(f"{rule}:persistent_memo_tables", n_tab)
+    rep.require(n_fn >= 5, f"{rule}: only {n_fn} functions analysed under {prefixes} (floor 5)")
+    if not n_bad:
+        rep.ok(rule, f"functions under {', '.join(prefixes)}", f"{n_fn} functions, {n_tab} single-function memo table(s) kept on an object: every key covers the parameters the stored value depends on",
+               "src/pyopenapi_gen:1")
